@@ -63,6 +63,14 @@ type inputInfo struct {
 	UndeclaredDrawing bool
 	CTClass           string // "std" | "fallback" | "other"
 	RelsClass         string
+	// content controls and fields of the main part
+	SDT        int  // w:sdt start elements
+	SDTNested  bool // a w:sdt inside a w:sdt
+	SDTGallery bool // some w:docPartGallery carries a value
+	Instr      int  // w:instrText elements and w:fldSimple/@w:instr attributes
+	InstrSplit bool // a paragraph with more than one w:instrText (an instruction split over runs)
+	FldChars   int
+	Distinct   int // distinct attribute values of the main part (all elements)
 }
 
 func (in *inputInfo) fold(t *tblInfo) {
@@ -147,6 +155,9 @@ func analyse(b []byte) *inputInfo {
 		tbl   *tblInfo // the table this tbl / tblGrid / tr frame belongs to
 	}
 	var stack []frame
+	values := map[string]struct{}{}
+	instrInPara := 0
+	defer func() { in.Distinct = len(values) }()
 	for {
 		tok, err := dec.Token()
 		if err == io.EOF {
@@ -161,6 +172,37 @@ func analyse(b []byte) *inputInfo {
 			in.MainStarts++
 			if t.Name.Local == "document" && t.Name.Space == nsW {
 				in.TransDoc = true
+			}
+			for _, a := range t.Attr {
+				if len(values) < 1<<21 {
+					values[a.Value] = struct{}{}
+				}
+			}
+			switch t.Name.Local {
+			case "sdt":
+				in.SDT++
+				for _, f := range stack {
+					if f.local == "sdt" {
+						in.SDTNested = true
+					}
+				}
+			case "docPartGallery":
+				for _, a := range t.Attr {
+					if a.Name.Local == "val" && a.Value != "" {
+						in.SDTGallery = true
+					}
+				}
+			case "p":
+				instrInPara = 0
+			case "instrText":
+				in.Instr++
+				if instrInPara++; instrInPara > 1 {
+					in.InstrSplit = true
+				}
+			case "fldSimple":
+				in.Instr++
+			case "fldChar":
+				in.FldChars++
 			}
 			if t.Name.Local == "graphic" && !declares(t, nsA) || t.Name.Local == "pic" && !declares(t, nsPic) {
 				in.UndeclaredDrawing = true
@@ -308,6 +350,30 @@ func (j *judge) call(clause, what, state string, f func()) bool {
 		return false
 	}
 	return true
+}
+
+// judgePre opens the packages that precede the case's own one (Case.Pre). They are well-formed by construction; the only
+// thing judged is that Open returns. What they leave behind in the process is the point.
+func judgePre(res *kit.Result, pre []*XMLPart) {
+	for i, p := range pre {
+		w := p.write()
+		if w == nil {
+			continue
+		}
+		c := Case{Gen: "rawmain", Via: "mem", Raw: p.finish(w.b.Bytes())}
+		b := c.Build()
+		j := &judge{res: res}
+		res.Eval("C06.T2.open")
+		var err error
+		j.call("C06.T2.open", fmt.Sprintf("OpenFromMemory of preceding package #%d (%d bytes)", i, len(b)), "", func() {
+			_, err = document.OpenFromMemory(readCloser{bytes.NewReader(b)})
+		})
+		if err != nil {
+			res.Count("pre_open_errors", 1)
+		}
+		res.Count("pre_packages_opened", 1)
+		res.Count("distinct_attr_values_offered", int(w.seq))
+	}
 }
 
 // judgeOpen evaluates T1-T3 on one byte string. via: "mem" (OpenFromMemory) or "file" (Open(path)).
@@ -537,6 +603,8 @@ func (j *judge) followUp(doc *document.Document) {
 	j.call(E, "AddImageFromData", "", func() { doc.AddImageFromData(tinyPNG, "added.png", document.ImageFormatPNG, 3, 2, nil) })
 	j.call(E, "SetPageMargins", "", func() { doc.SetPageMargins(20, 20, 20, 20) })
 	j.call(E, "AddBulletList", "", func() { doc.AddBulletList("item", 0, document.BulletTypeDot) })
+	// rebuilds an opened table-of-contents content control (uses what Open restored from its tag / field instruction)
+	j.call(E, "UpdateTOC", "", func() { doc.UpdateTOC() })
 	j.call(E, "RemoveParagraphAt", "", func() { doc.RemoveParagraphAt(0) })
 	j.call(E, "RemoveElementAt", "", func() {
 		if doc.Body != nil {
